@@ -30,7 +30,7 @@ LEVEL_TEXT = ("Props/C11.v, whole evaluation: C11_unmatched_input_pipeline_mirro
               "pipeline theorem and decided by correspondence).")
 LEVEL_NOTE = ("Partial in Coq for semantic input (component numbering, by correspondence / C01 semantic theorem) and RVD lists after IEEE rounding. "
               "Geometric values (ASSD) enter as parameters required to be symmetric (C07_symmetric). Trusted: Coq kernel, translator, harness.")
-TECHNIQUE = "machine-checked proof in Rocq (Coq) (symmetry lemmas, transport of the matching spec) + metamorphic correspondence on the implementation"
+TECHNIQUE = "machine-checked proof in Rocq (Coq) (whole-pipeline mirror theorem) + AST re-translation (GenEq) + metamorphic correspondence on the implementation"
 
 
 def run(ctx):
